@@ -334,6 +334,8 @@ type tunnelServerStream struct {
 	sender     sender
 	receiver   receiver[tunnelpb.ClientToServerFrame]
 	halfClosed atomic.Pointer[errHolder]
+	// the reason the stream finished; the first one reported wins
+	finishErr atomic.Pointer[errHolder]
 
 	// for reading frames from channel, to read message data
 	readMu  sync.Mutex
@@ -621,6 +623,11 @@ func (st *tunnelServerStream) serveStream(md interface{}, srv interface{}) {
 }
 
 func (st *tunnelServerStream) finishStream(err error) {
+	// Cancelling the context below wakes a handler that is blocked in a send
+	// or receive, and the handler then finishes the stream, too, with its own
+	// (context) error. Whoever gets to send the close frame must report the
+	// first reason, e.g. a flow control violation, not that consequence of it.
+	st.finishErr.CompareAndSwap(nil, &errHolder{err})
 	st.cancel()
 	st.svr.removeStream(st.streamID)
 	st.halfClose(err)
@@ -632,7 +639,7 @@ func (st *tunnelServerStream) finishStream(err error) {
 		return
 	}
 
-	stat, _ := status.FromError(err)
+	stat, _ := status.FromError(st.finishErr.Load().error)
 
 	headers := st.headers
 	sendHeaders := !st.sentHeaders
